@@ -367,4 +367,6 @@ def run(chk):
     # "no event is exported twice": an acknowledged request is removed before the next one is sent / before a retry (shared with C12)
     from . import c12
     c12.send_loop_rules(chk, P, "C14.send")
+    from . import c13
+    c13.tag_overrides_rule(chk, P, "C14.R2:tag-overrides")
     return chk
